@@ -18,7 +18,7 @@ counts, plus follow-up RPCs after a failed one (~350); thorough: kind x outcome 
 several handler counts and modes each (~4000)."""
 
 KINDS = ['unary', 'bidi', 'cs', 'ss']
-OUTS = ['ok', 'herr', 'cancel', 'precancel', 'deadline', 'cread', 'cwrite', 'cwmid', 'swrite', 'dead']
+OUTS = ['ok', 'herr', 'cancel', 'precancel', 'deadline', 'cread', 'cwrite', 'cwmid', 'swrite', 'dead']      # + badreq, badreply (unary, _more)
 TERMINAL = ('cread', 'dead')      # the client connection is gone afterwards
 LAST = ('swrite',)                # the served connection is gone afterwards: nothing may follow
 CODES = [1, 2, 3, 5, 7, 10, 13, 14, 16]
@@ -27,6 +27,8 @@ CODES = [1, 2, 3, 5, 7, 10, 13, 14, 16]
 def _rpc(c, kind, out, rng, herr=None):
     if kind == 'unary' and out == 'cwmid':
         out = 'cwrite'
+    if kind != 'unary' and out in ('badreq', 'badreply'):      # codec refusals are judged on unary calls only
+        out = 'ok'
     r = dict(c=c, kind=kind, out=out, n=rng.choice([0, 1, 1, 2, 3]) if kind != 'unary' else 0)
     if out == 'herr':
         r['herr'] = herr or ('eof' if rng.random() < 0.15 else 'status')
@@ -34,7 +36,7 @@ def _rpc(c, kind, out, rng, herr=None):
     return r
 
 
-def _scen(rng, kind, out, sn, cn, ch, sh, herr=None, mods=None, extra=True):
+def _scen(rng, kind, out, sn, cn, ch, sh, herr=None, mods=None, extra=True, retry=0, deny=0):
     if mods is None:
         mods = 'mqre' if rng.random() < 0.7 else ''.join(x for x in 'mqre' if rng.random() < 0.5)
     cmode = 'single' if cn == 1 and rng.random() < 0.5 else rng.choice(['hand', 'mw'])
@@ -54,10 +56,42 @@ def _scen(rng, kind, out, sn, cn, ch, sh, herr=None, mods=None, extra=True):
     eof = any(r['out'] in ('cread', 'dead') for r in rpcs) and rng.random() < 0.5      # the failing reads report io.EOF
     if eof:
         tag += ' eof'
+    if retry:
+        tag += ' stage %d calls its handler twice' % (retry - 1)
+    if deny:
+        tag += ' stage %d refuses' % (deny - 1)
     return dict(fam='C20', runner='observers', tag=tag, cn=cn, cmode=cmode, sn=sn, smode=smode, ch=ch, sh=sh,
-                mods=mods, rpcs=rpcs, eof=eof,
+                mods=mods, rpcs=rpcs, eof=eof, retry=retry, deny=deny,
                 steps=[dict(op='rpc:' + r['out'], kind=r['kind'], n=r['n'], herr=r.get('herr', '')) for r in rpcs]
                 + [dict(op='cfg', cn=cn, sn=sn, ch=ch, sh=sh, cmode=cmode, smode=smode, mods=mods)])
+
+
+def _more(rng, tier):
+    """what a stage is free to do besides calling on once, and messages the codec refuses"""
+    out = []
+    hs = [(a, b) for a in (1, 2, 3) for b in (1, 2, 3)]
+    reps = 1 if tier == 'quick' else 3
+    for _ in range(reps):
+        # a server stage that calls its handler twice (retry / hedge): every position in chains of 1..6
+        for sn in range(1, 7):
+            for k in range(sn):
+                for kind in (KINDS if tier != 'quick' else ['unary', rng.choice(KINDS[1:])]):
+                    o = rng.choice(['ok', 'herr', 'ok', 'cancel', 'deadline'])
+                    ch, sh = rng.choice(hs)
+                    out.append(_scen(rng, kind, o, sn, rng.randint(0, 3), ch, sh, retry=k + 1))
+        # a server stage that refuses the RPC without calling on
+        for sn in range(1, 7):
+            for k in range(sn):
+                kind = rng.choice(KINDS)
+                ch, sh = rng.choice(hs)
+                out.append(_scen(rng, kind, rng.choice(['ok', 'herr']), sn, rng.randint(0, 3), ch, sh, deny=k + 1))
+        # a request the codec cannot encode, a reply it cannot decode
+        for o in ('badreq', 'badreply'):
+            for sn in (0, 1, 3, 6):
+                for cn in range(0, 4):
+                    ch, sh = rng.choice(hs)
+                    out.append(_scen(rng, 'unary', o, sn, cn, ch, sh))
+    return out
 
 
 def generate(tier, rng):
@@ -80,7 +114,9 @@ def generate(tier, rng):
             for sn in (0, 1, 3):
                 out.append(_scen(rng, kind, 'herr', sn, rng.randint(0, 2), rng.randint(1, 3), rng.randint(1, 3),
                                  herr='eof', mods=rng.choice(['mqr', 'mqre'])))
+        out += _more(rng, tier)
     else:
+        out += _more(rng, tier)
         for kind in KINDS:
             for o in OUTS:
                 for sn in range(0, 7):
